@@ -142,6 +142,11 @@ def ordGo : Ordering → Int
 /-- the entry of `m` at `k`, or `c` when there is none (`dict.GetDefault` before the entry is stored) -/
 def getDefault {κ ν : Type} [DecidableEq κ] (m : AMap κ ν) (k : κ) (c : ν) : ν := (AMap.find? m k).getD c
 
+/-- `dict.SortedKeys(m, cmp)`: the keys of the map sorted with "less" = (`cmp` = Smaller).  Exact when `cmp` is a strict total
+order on the keys (then neither Go's map iteration order nor the unstable `sort.Slice` can show). -/
+def sortedKeys {κ ν : Type} (m : AMap κ ν) (cmp : κ → κ → Int) : List κ :=
+  (m.map Prod.fst).mergeSort (fun a b => decide (cmp a b ≠ 1))
+
 /-- the body of a `for … range` loop in the Outcome monad -/
 def foldlE {σ α : Type} (f : σ → α → Outcome σ) : σ → List α → Outcome σ
   | s, [] => .ok s
